@@ -38,6 +38,7 @@ type c19Spec struct {
 	TLS     bool // POP3 offers STLS; the client upgrades the session before logging in
 	Slow    bool // the client pauses 250 s (fake clock) before every line: the session is active for longer than the idle timeout (600 s), never idle that long
 	Bound   [2]int
+	Overlap bool // two marking POP3 sessions whose deletions overlap
 }
 
 func c19Specs() []c19Spec {
@@ -49,6 +50,11 @@ func c19Specs() []c19Spec {
 		{ID: "G8-pop3-two-sessions-idle-and-marked", Proto: "pop3", Clients: 2, Short: true, Prelude: true, Bound: [2]int{1, 2}},
 		{ID: "G7-smtp-two-sessions-idle-and-transfer", Proto: "smtp", Clients: 2, Short: true, Prelude: true, Bound: [2]int{1, 2}},
 		{ID: "G2-pop3-session-cancel-drain", Proto: "pop3", Clients: 1, Bound: [2]int{1, 2}},
+		// two sessions on one mailbox of three messages, both past their DELEs when shutdown is
+		// requested: A has marked message 1, B messages 1 and 2.  Whoever commits first, messages
+		// 1 and 2 are gone afterwards and message 3 stays (a deletion that finds its message gone
+		// already does not cancel the session's other deletions)
+		{ID: "G19-pop3-two-sessions-overlapping-deletions", Proto: "pop3", Clients: 2, Short: true, Prelude: true, Overlap: true, Bound: [2]int{0, 1}},
 		{ID: "G12-pop3-slow-session-outlives-the-idle-timeout", Proto: "pop3", Clients: 1, Slow: true, Bound: [2]int{1, 2}},
 		{ID: "G11-pop3-stls-session-cancel-drain", Proto: "pop3", Clients: 1, TLS: true, Bound: [2]int{1, 2}},
 		{ID: "G5-both-two-sessions", Proto: "both", Clients: 2, Short: true, Bound: [2]int{0, 1}},
@@ -64,6 +70,7 @@ type c19Client struct {
 	refused   bool
 	broke     string
 	idle      bool     // an SMTP session that only says HELO and QUIT
+	second    bool     // the second client of a two-client scenario
 	tlsConn   net.Conn // set once the session has been upgraded with STLS
 	tlsR      *bufio.Reader
 }
@@ -110,6 +117,11 @@ func c19Scenario(c *fw.Ctx, sp c19Spec) schedScenario {
 				init := func() {
 					// one message for the POP3 client to delete
 					_, _ = s.StoreH.Store.AddMessage(sys.Delivery("u", "f@x.test", []string{"u@x.test"}, "old", "Subject: old\r\n\r\nold\r\n", time.Now()))
+					if sp.Overlap {
+						for _, n := range []string{"second", "third"} {
+							_, _ = s.StoreH.Store.AddMessage(sys.Delivery("u", "f@x.test", []string{"u@x.test"}, n, "Subject: "+n+"\r\n\r\n"+n+"\r\n", time.Now()))
+						}
+					}
 				}
 				protos := []string{sp.Proto}
 				if sp.Proto == "both" {
@@ -191,6 +203,9 @@ func c19Scenario(c *fw.Ctx, sp c19Spec) schedScenario {
 					}
 					if sp.TLS {
 						return []string{"STLS", "USER u", "PASS p", "DELE 1", "QUIT"}
+					}
+					if sp.Overlap && cl.second {
+						return []string{"USER u", "PASS p", "DELE 1", "DELE 2", "QUIT"}
 					}
 					return []string{"USER u", "PASS p", "DELE 1", "QUIT"}
 				}
@@ -276,6 +291,8 @@ func c19Scenario(c *fw.Ctx, sp c19Spec) schedScenario {
 						return 1 // HELO / USER
 					case cl.proto == "smtp":
 						return 4 // … up to DATA (354): a transfer is in progress
+					case sp.Overlap && cl.second:
+						return 4 // USER, PASS, DELE 1, DELE 2
 					default:
 						return 3 // USER, PASS, DELE 1: a deletion is pending
 					}
@@ -309,7 +326,7 @@ func c19Scenario(c *fw.Ctx, sp c19Spec) schedScenario {
 						break
 					}
 					p := protos[i%len(protos)]
-					cl := &c19Client{proto: p, greeted: -1, completed: -1, idle: sp.Clients == 2 && len(protos) == 1 && i == 0}
+					cl := &c19Client{proto: p, greeted: -1, completed: -1, idle: sp.Clients == 2 && len(protos) == 1 && i == 0 && !sp.Overlap, second: i == 1}
 					clients = append(clients, cl)
 					if !sp.Prelude {
 						ths = append(ths, vsched.Thread{Name: fmt.Sprintf("client%d-%s", i, p), F: session(cl, ready[p])})
@@ -366,13 +383,19 @@ func c19Scenario(c *fw.Ctx, sp c19Spec) schedScenario {
 							}
 						} else {
 							ms, _ := st.GetMessages("u")
-							nrep := 5
+							nrep, left := 5, 0
 							if sp.TLS {
 								nrep = 6
 							}
-							if len(cl.replies) != nrep || !strings.HasPrefix(cl.replies[nrep-1], "+OK") || len(ms) != 0 {
+							if sp.Overlap {
+								left = 1 // the third message
+								if cl.second {
+									nrep = 6
+								}
+							}
+							if len(cl.replies) != nrep || !strings.HasPrefix(cl.replies[nrep-1], "+OK") || len(ms) != left {
 								probs = append(probs, [2]string{"pop3-deletes-not-applied", fmt.Sprintf("client %d marked message 1 and sent QUIT during shutdown: replies %v, mailbox u still holds %d messages", i, cl.replies, len(ms))})
-							} else if leftAtDrainReturn > 0 {
+							} else if leftAtDrainReturn > left {
 								// the process exits when the drain calls have returned: what is not applied by then is lost
 								probs = append(probs, [2]string{"pop3-deletes-pending-at-drain-return", fmt.Sprintf("client %d's session was open before Drain was called, marked message 1 and sent QUIT: when POP3 Drain returned, mailbox u still held %d message(s) - the deletion was applied only afterwards (main exits as soon as the drain calls return)", i, leftAtDrainReturn)})
 							}
